@@ -1290,6 +1290,9 @@ done:
        */
       *bin     = (unsigned char *)ares_buf_finish_str(binbuf, &mylen);
       *bin_len = mylen;
+    } else {
+      /* Caller only wanted to skip over the string */
+      ares_buf_destroy(binbuf);
     }
   }
 
